@@ -1,5 +1,5 @@
 ENGINES = [
- {"name": "A-history", "path": "mc/core.py + mc/props/*.py", "serves_properties": ["C05", "C06", "C10"],
+ {"name": "A-history", "path": "mc/core.py + mc/props/*.py", "serves_properties": ["C05", "C06", "C10", "C11"],
   "kind_free_text": "explicit-state exploration of operation histories on the real objects against a reference model (graph mode to fixpoint / tree mode to depth d), hand-written, parallel over work units"},
 ]
 NOTES = ("All checks are bounded-exhaustive explorations executed on the real code from /repo/lib (current working tree). "
@@ -15,5 +15,8 @@ CHECKS = {
  "C10": {"engine": "A-history", "technique": "explicit-state model checking: exhaustive histories of structural operations (tree depth 2-3, graph depth 3-4) against a document-order list model",
          "text": "32 generated documents with unique and duplicated field names, attached and free comments, every kind of last line; all histories of order_first/last/before/after (indexed and unindexed), sort_fields, indexed/unindexed set and delete, insert/append of paragraphs to the stated depth; dump compared byte for byte with the list model, (name,i) lookups on the live object and a fresh parse compared with the model.",
          "note": "Bounds: <= 5 fields per paragraph, <= 3 occurrences of a name, depth <= 4; a missing final newline may be supplied by any operation (statement's liberty)."},
+ "C11": {"engine": "A-history", "technique": "bounded-exhaustive enumeration of list-field layouts (input trie over layout pieces) x exhaustive edit histories (depth 1-3, one or several `with` blocks, with and without intermediate reads) against a split oracle and a Python list",
+         "text": "Every valid field value built from <= 4-5 layout pieces (words, blanks, tabs, separators, line breaks, comment lines) for the whitespace and the comma interpretation is read and compared with an independent split; no-op views must leave the dump byte-identical; every append/remove/replace/reference edit history to the stated depth is applied to a Python list and to the real view, then the dump is re-parsed: still one paragraph X F Y, X and Y untouched, list equal to the model (also on the live object).",
+         "note": "Bounds: <= 5 pieces per value, edit depth <= 3; empty values and removing the only value are outside the domain."},
 }
 NOT_APPLICABLE = [{"property_id": "C%02d" % i, "reason": PENDING} for i in range(1, 21) if "C%02d" % i not in CHECKS]
